@@ -2891,8 +2891,11 @@ class Generator():
         if isinstance(etype, tp.TypeParameter):
             type_params = self.gen_type_params(
                 count=1, with_variance=self.language in ['kotlin', 'scala'])
-            type_params[0].bound = etype.get_bound_rec(self.bt_factory)
-            type_params[0].variance = tp.Invariant
+            def _update(t_param=type_params[0]):
+                t_param.bound = etype.get_bound_rec(self.bt_factory)
+                t_param.variance = tp.Invariant
+            # the type parameter is already registered in the context
+            self.context.rekey(type_params[0], _update)
             return type_params, {etype: type_params[0]}, True
 
         # the given type is parameterized
@@ -2918,12 +2921,15 @@ class Generator():
             bounds = list(bounds)
             type_param = ut.random.choice(available_type_params)
             available_type_params.remove(type_param)
-            if bounds != [None]:
-                type_param.bound = functools.reduce(
-                    lambda acc, t: t if t.is_subtype(acc) else acc,
-                    filter(lambda t: t is not None, bounds), bounds[0])
-            else:
-                type_param.bound = None
-            type_param.variance = tp.Invariant
+            def _update(type_param=type_param, bounds=bounds):
+                if bounds != [None]:
+                    type_param.bound = functools.reduce(
+                        lambda acc, t: t if t.is_subtype(acc) else acc,
+                        filter(lambda t: t is not None, bounds), bounds[0])
+                else:
+                    type_param.bound = None
+                type_param.variance = tp.Invariant
+            # the type parameter is already registered in the context
+            self.context.rekey(type_param, _update)
             type_var_map[type_var] = type_param
         return type_params, type_var_map, can_wildcard
